@@ -17,15 +17,39 @@ _TARGET: str | None = None
 _HOOK_INSTALLED = False
 
 
+PROBE = None          # optional callable: a snapshot of harness-side state recorded with every event that concerns the target
+
+
+def _is_target(path) -> bool:
+    try:
+        return isinstance(path, (str, bytes, os.PathLike)) and os.path.abspath(os.fsdecode(path)) == _TARGET
+    except Exception:
+        return False
+
+
 def _audit(event, args):
-    if event == "open" and _OPEN_LOG is not None and _TARGET is not None:
-        try:
-            path = args[0]
-            if isinstance(path, (str, bytes, os.PathLike)) and os.path.abspath(os.fsdecode(path)) == _TARGET:
-                mode = args[1] if len(args) > 1 and args[1] is not None else "r"
-                _OPEN_LOG.append(("open", mode, _EVENT_NO[0]))
-        except Exception:
-            pass
+    """every event that reads or can modify the target file: (kind, mode, line-event number, probe).  mode contains "w" when the event can
+    change the file: open for writing / appending / updating (also os.open with write flags), rename / replace onto it, remove, truncate."""
+    if _OPEN_LOG is None or _TARGET is None:
+        return
+    try:
+        rec = None
+        if event == "open" and _is_target(args[0]):
+            mode = args[1] if len(args) > 1 and args[1] is not None else None
+            if mode is None:
+                flags = args[2] if len(args) > 2 and isinstance(args[2], int) else 0
+                mode = "w" if flags & (os.O_WRONLY | os.O_RDWR | os.O_TRUNC | os.O_APPEND) else "r"
+            elif any(c in mode for c in "wax+"):
+                mode = "w:" + mode
+            rec = ("open", mode)
+        elif event == "os.rename" and (_is_target(args[1]) or _is_target(args[0])):
+            rec = ("rename", "w")
+        elif event in ("os.remove", "os.truncate", "shutil.move", "shutil.copyfile") and any(_is_target(a) for a in args[:2]):
+            rec = (event, "w")
+        if rec is not None:
+            _OPEN_LOG.append((rec[0], rec[1], _EVENT_NO[0], PROBE() if PROBE is not None else None))
+    except Exception:
+        pass
 
 
 _EVENT_NO = [0]
@@ -74,3 +98,12 @@ def run_traced(fn, target: str, pkg_dir: str, fault_at: int | None = None):
     _OPEN_LOG = None
     _TARGET = None
     return exc, _EVENT_NO[0], log
+
+
+def touches(log):
+    """the events of a log that can modify the target"""
+    return [e for e in log if "w" in e[1]]
+
+
+def reads(log):
+    return [e for e in log if "w" not in e[1]]
